@@ -18,7 +18,7 @@ Proof.
 Qed.
 
 Section ConstGen.
-  Variables logn base2k dnum ld a : Z.
+  Variables logn base2k dnum bb ld a : Z.
   Hypothesis Hd : 1 <= dnum.
   Hypothesis Ha : 0 <= a.
   Hypothesis Halpha : alpha dnum = 2 ^ a.
@@ -27,6 +27,9 @@ Section ConstGen.
   Hypothesis Hroom : ld + a + 1 <= logn.           (* step >= 2: the assert gap > 0 of the code *)
   Hypothesis Hb : 1 <= base2k.
   Hypothesis Hldb : ld + 1 <= base2k.               (* the message fits below the sign bit of the first gadget digit *)
+  Hypothesis Hbb : 1 <= bb.
+  (* no lookup-table coefficient reaches the top of i64: what the overflow assert enforces, constant resp. exponent mode *)
+  Hypothesis Hove : base2k * (dnum - 1) + lut_sc base2k dnum bb <= 62.
   Let e := logn - ld - a.
   Let S := 2 ^ e.
   Let A := 2 ^ a.
@@ -55,11 +58,19 @@ Section ConstGen.
   Lemma gap_eq : cb_gap logn dnum ld = S.
   Proof. unfold cb_gap. rewrite drift_eq. symmetry. apply S_even. Qed.
 
+  Lemma sc_nonneg : 0 <= lut_sc base2k dnum bb.
+  Proof. unfold lut_sc. cbv zeta. destruct (_ =? 0); [lia|]. pose proof (Z.mod_pos_bound (base2k * dnum) bb ltac:(lia)). lia. Qed.
+  Lemma wrap64_small v : 0 <= v < 2 ^ 63 -> wrap64 v = v.
+  Proof. intros Hv. unfold wrap64. rewrite Z.mod_small by (change (2 ^ 64) with (2 * 2 ^ 63); lia). lia. Qed.
+  Lemma asserts_ok : ld + base2k * (dnum - 1) + lut_sc base2k dnum bb <= 62 -> cb_asserts base2k dnum bb false ld = true.
+  Proof. intros Hov. unfold cb_asserts. rewrite Z.max_r by lia. apply Z.ltb_lt. lia. Qed.
+
   (* the coefficient that ends at position 0 of row i *)
-  Lemma row_coeff0 m i : 0 <= m < D -> 0 <= i < dnum ->
-    p_rot n (- (i * cb_gap logn dnum ld)) (br_acc logn base2k dnum false ld m) 0 = m * 2 ^ (base2k * (dnum - 1 - i)).
+  Lemma row_coeff0 m i : ld + base2k * (dnum - 1) + lut_sc base2k dnum bb <= 62 -> 0 <= m < D -> 0 <= i < dnum ->
+    p_rot n (- (i * cb_gap logn dnum ld)) (br_acc logn base2k dnum bb false ld m) 0 =
+      m * 2 ^ (base2k * (dnum - 1 - i) + lut_sc base2k dnum bb).
   Proof.
-    intros Hm Hi. rewrite gap_eq. pose proof S_pos. pose proof A_pos. pose proof D_pos. pose proof n_DAS as En.
+    intros Hov Hm Hi. rewrite gap_eq. pose proof S_pos. pose proof A_pos. pose proof D_pos. pose proof n_DAS as En.
     pose proof (pow2_pos' (e - 1) ltac:(unfold e; lia)) as Hh. pose proof S_even as Es. fold A in Hda.
     assert (B1 : 0 <= i * S /\ 0 <= m * (A * S) /\ i * S + m * (A * S) + 2 ^ (e - 1) < n).
     { assert (0 < A * S) by nia.
@@ -78,19 +89,35 @@ Section ConstGen.
     unfold lut_full. rewrite f_len_eq, step_eq. rewrite <- En.
     destruct (Z.leb_spec 0 z); [|lia]. destruct (Z.ltb_spec z n); [|nia]. cbn [andb].
     destruct (div_mod_small z S (m * A + i) (2 ^ (e - 1)) ltac:(lia) ltac:(lia) ltac:(lia)) as [-> _].
-    unfold f_at. rewrite f_len_eq, Halpha. fold A.
+    unfold lut_entry, f_i64. rewrite f_len_eq, Halpha. fold A.
     destruct (div_mod_small (m * A + i) A m i ltac:(lia) ltac:(lia) ltac:(ring)) as [-> ->].
     destruct (Z.leb_spec 0 (m * A + i)); [|nia]. destruct (Z.ltb_spec (m * A + i) (D * A)); [|nia].
-    destruct (Z.ltb_spec i dnum); [|lia]. reflexivity.
+    destruct (Z.ltb_spec i dnum); [|lia]. cbn [andb].
+    pose proof sc_nonneg as Hsc. set (sc := lut_sc base2k dnum bb) in *.
+    set (X := base2k * (dnum - 1 - i)).
+    assert (HX : 0 <= X <= base2k * (dnum - 1)) by (unfold X; nia).
+    assert (P1 : 0 < 2 ^ X) by (apply pow2_pos'; lia).
+    assert (P2 : 0 < 2 ^ sc) by (apply pow2_pos'; lia).
+    assert (B2 : m * 2 ^ X * 2 ^ sc < 2 ^ 62).
+    { apply Z.lt_le_trans with (2 ^ ld * 2 ^ X * 2 ^ sc).
+      - fold D. apply Z.mul_lt_mono_pos_r; [lia|]. apply Z.mul_lt_mono_pos_r; lia.
+      - rewrite <- !Z.pow_add_r by lia. apply Z.pow_le_mono_r; lia. }
+    assert (B3 : 0 <= m * 2 ^ X <= m * 2 ^ X * 2 ^ sc) by nia.
+    assert (B4 : 2 ^ X <= m * 2 ^ X * 2 ^ sc \/ m = 0) by nia.
+    assert (B5 : 2 ^ X < 2 ^ 63).
+    { apply Z.pow_lt_mono_r; lia. }
+    assert (E62 : 2 ^ 62 < 2 ^ 63) by (apply Z.pow_lt_mono_r; lia).
+    rewrite (wrap64_small (2 ^ X)) by lia. rewrite (wrap64_small (m * 2 ^ X)) by lia.
+    rewrite (wrap64_small (m * 2 ^ X * 2 ^ sc)) by nia. rewrite Z.pow_add_r by lia. ring.
   Qed.
 
-  Lemma row_ok m i : 0 <= m < D -> 0 <= i < dnum ->
-    exists q, cb_row logn base2k dnum false ld 0 m i = Some q /\
-              forall j, 0 <= j < n -> row_decoded base2k dnum i q j = p_const m j.
+  Lemma row_ok lgo m i : ld + base2k * (dnum - 1) + lut_sc base2k dnum bb <= 62 -> 0 <= m < D -> 0 <= i < dnum ->
+    exists q, cb_row logn base2k dnum bb false ld lgo m i = Some q /\
+              forall j, 0 <= j < n -> row_decoded base2k dnum bb i q j = p_const m j.
   Proof.
-    intros Hm Hi. unfold cb_row. cbv zeta. eexists; split; [reflexivity|]. intros j Hj.
+    intros Hov Hm Hi. unfold cb_row. rewrite asserts_ok by exact Hov. cbv zeta. eexists; split; [reflexivity|]. intros j Hj.
     unfold row_decoded, p_trace, p_keep, p_const. fold n. change (2 ^ 0) with 1. rewrite Z.div_1_r.
-    set (s := base2k * (dnum - 1 - i)). assert (Hs : 0 <= s) by (unfold s; nia).
+    pose proof sc_nonneg. set (s := base2k * (dnum - 1 - i) + lut_sc base2k dnum bb). assert (Hs : 0 <= s) by (unfold s; nia).
     set (Mo := 2 ^ (base2k * (i + 1))).
     assert (HM : 2 * m < Mo).
     { unfold Mo. apply Z.lt_le_trans with (2 * 2 ^ ld); [fold D; lia|]. rewrite <- Z.pow_succ_r by lia.
@@ -112,26 +139,223 @@ Section ConstGen.
       destruct (Z.leb_spec (Mo / 2) 0); lia.
   Qed.
 
-  Lemma rows_ok_const m : 0 <= m < D -> cbt_rows_ok logn base2k dnum false ld 0 m = true.
+  Lemma rows_ok_const lgo m : ld + base2k * (dnum - 1) + lut_sc base2k dnum bb <= 62 -> 0 <= m < D -> cbt_rows_ok logn base2k dnum bb false ld lgo m = true.
   Proof.
-    intros Hm. unfold cbt_rows_ok. apply forallb_forall. intros i Hi. apply in_zseq in Hi. rewrite Z2Nat.id in Hi by lia.
-    destruct (row_ok m i Hm ltac:(lia)) as (q & -> & Hq).
+    intros Hov Hm. unfold cbt_rows_ok. apply forallb_forall. intros i Hi. apply in_zseq in Hi. rewrite Z2Nat.id in Hi by lia.
+    destruct (row_ok lgo m i Hov Hm ltac:(lia)) as (q & -> & Hq).
     unfold poly_eqb. apply forallb_forall. intros j Hj. apply in_zseq in Hj.
     assert (0 < n) by (apply pow2_pos'; lia). fold n in Hj. rewrite Z2Nat.id in Hj by lia.
     apply Z.eqb_eq. rewrite Hq by lia. unfold cand. reflexivity.
   Qed.
+  (* ---------------------------------------------------------------------------------------------- *)
+  (** ** exponent mode *)
+
+  Let G := e + a.
+  Lemma AS_pow : A * S = 2 ^ G. Proof. unfold A, S, G. rewrite <- Z.pow_add_r by (unfold e; lia). f_equal. lia. Qed.
+  Lemma log_gap_in_eq : log_gap_in logn dnum ld = G.
+  Proof.
+    unfold log_gap_in. rewrite gap_eq, Halpha. fold A. rewrite (Z.mul_comm S A), AS_pow.
+    assert (1 <= G) by (unfold G, e; lia).
+    assert (2 <= 2 ^ G) by (replace G with (1 + (G - 1)) by lia; rewrite Z.pow_add_r by lia; pose proof (pow2_pos' (G - 1) ltac:(lia)); change (2 ^ 1) with 2; lia).
+    unfold bitlen. destruct (Z.leb_spec (2 ^ G - 1) 0); [lia|].
+    replace (2 ^ G - 1) with (Z.pred (2 ^ G)) by lia. rewrite Z.log2_pred_pow2 by lia. lia.
+  Qed.
+  Lemma asserts_ok_expo : cb_asserts base2k dnum bb true ld = true.
+  Proof. unfold cb_asserts. rewrite Z.max_r by lia. apply Z.ltb_lt. lia. Qed.
+
+  (* the accumulator of row i at the multiples of alpha * step: the row's own table entry at t = m, zero elsewhere *)
+  Lemma row_coeff_expo m i t : 0 <= m < D -> 0 <= i < dnum -> 0 <= t < D ->
+    p_rot n (- (i * cb_gap logn dnum ld)) (br_acc logn base2k dnum bb true ld m) (t * (A * S)) =
+      if t =? m then 2 ^ (base2k * (dnum - 1 - i) + lut_sc base2k dnum bb) else 0.
+  Proof.
+    intros Hm Hi Ht. rewrite gap_eq. pose proof S_pos. pose proof A_pos. pose proof D_pos. pose proof n_DAS as En.
+    pose proof (pow2_pos' (e - 1) ltac:(unfold e; lia)) as Hh. pose proof S_even as Es. fold A in Hda.
+    assert (HAS : 0 < A * S) by nia.
+    assert (Bi : 0 <= i * S /\ i * S + 2 ^ (e - 1) < A * S).
+    { assert (i * S <= (A - 1) * S) by (apply Z.mul_le_mono_nonneg_r; lia).
+      assert (0 <= i * S) by (apply Z.mul_nonneg_nonneg; lia).
+      replace (A * S) with ((A - 1) * S + S) by ring. lia. }
+    assert (Bt : forall u, 0 <= u < D -> 0 <= u * (A * S) /\ u * (A * S) + A * S <= n).
+    { intros u Hu. assert (u * (A * S) <= (D - 1) * (A * S)) by (apply Z.mul_le_mono_nonneg_r; lia).
+      assert (0 <= u * (A * S)) by (apply Z.mul_nonneg_nonneg; lia).
+      rewrite En. replace (D * A * S) with ((D - 1) * (A * S) + A * S) by ring. lia. }
+    pose proof (Bt t Ht) as Btt. pose proof (Bt m Hm) as Btm.
+    unfold br_acc. cbv zeta. fold n.
+    assert (Eph : n / 2 ^ ld = A * S) by (fold D; rewrite En; replace (D * A * S) with (A * S * D) by ring; apply Z.div_mul; lia).
+    rewrite Eph. rewrite (p_rot_lo n) by lia. unfold lut. fold n.
+    (* the entry read: index q * S + drift of lut_full *)
+    assert (Hentry : forall q, 0 <= q -> q * S + S <= n ->
+               p_rot n (- drift logn dnum ld) (lut_full logn base2k dnum bb true ld) (q * S) = lut_entry base2k dnum bb true ld q).
+    { intros q Hq0 Hq. rewrite drift_eq. rewrite (p_rot_lo n) by lia. unfold lut_full. rewrite f_len_eq, step_eq, <- En.
+      destruct (Z.leb_spec 0 (q * S - - 2 ^ (e - 1))); [|nia]. destruct (Z.ltb_spec (q * S - - 2 ^ (e - 1)) n); [|lia]. cbn [andb].
+      destruct (div_mod_small (q * S - - 2 ^ (e - 1)) S q (2 ^ (e - 1)) ltac:(lia) ltac:(lia) ltac:(ring)) as [-> _]. reflexivity. }
+    assert (Hval : forall u, 0 <= u < D ->
+               lut_entry base2k dnum bb true ld (u * A + i) = if u =? 0 then 2 ^ (base2k * (dnum - 1 - i) + lut_sc base2k dnum bb) else 0).
+    { intros u Hu. unfold lut_entry, f_i64. rewrite f_len_eq, Halpha. fold A.
+      destruct (div_mod_small (u * A + i) A u i ltac:(lia) ltac:(lia) ltac:(ring)) as [-> ->].
+      destruct (Z.leb_spec 0 (u * A + i)); [|nia]. destruct (Z.ltb_spec (u * A + i) (D * A)); [|nia].
+      destruct (Z.ltb_spec i dnum); [|lia]. cbn [andb].
+      destruct (Z.eqb_spec u 0); [|reflexivity].
+      pose proof sc_nonneg as Hsc. set (sc := lut_sc base2k dnum bb) in *. set (X := base2k * (dnum - 1 - i)).
+      assert (HX : 0 <= X <= base2k * (dnum - 1)) by (unfold X; nia).
+      assert (B5 : 0 < 2 ^ X < 2 ^ 63) by (split; [apply pow2_pos'; lia | apply Z.pow_lt_mono_r; lia]).
+      assert (B6 : 0 < 2 ^ (X + sc) < 2 ^ 63) by (split; [apply pow2_pos'; lia | apply Z.pow_lt_mono_r; lia]).
+      rewrite (wrap64_small (2 ^ X)) by lia. rewrite <- Z.pow_add_r by lia. apply wrap64_small. lia. }
+    destruct (Z_lt_le_dec t m) as [Hlt|Hge].
+    - (* the table wrapped once: entry (t - m + D) * alpha + i, a zero of the table *)
+      rewrite (p_rot_neg n) by (try (rewrite En; nia); nia).
+      replace (t * (A * S) - - (i * S) - m * (A * S) + n) with (((t - m + D) * A + i) * S) by (rewrite En; ring).
+      rewrite Hentry; [| nia |].
+      + rewrite Hval by lia. destruct (Z.eqb_spec (t - m + D) 0); [lia|]. destruct (Z.eqb_spec t m); lia.
+      + pose proof (Bt (t - m + D) ltac:(lia)). nia.
+    - rewrite (p_rot_lo n) by nia.
+      replace (t * (A * S) - - (i * S) - m * (A * S)) with (((t - m) * A + i) * S) by ring.
+      rewrite Hentry; [| nia |].
+      + rewrite Hval by lia. destruct (Z.eqb_spec (t - m) 0); destruct (Z.eqb_spec t m); try lia; reflexivity.
+      + pose proof (Bt (t - m) ltac:(lia)). nia.
+  Qed.
+  Lemma cand_expo lgo m j : 0 <= lgo -> 0 <= m -> m * 2 ^ lgo < n -> 0 <= j < n ->
+    cand logn true lgo m j = if j =? m * 2 ^ lgo then 1 else 0.
+  Proof.
+    intros Hl Hm Hbd Hj. unfold cand. fold n. pose proof (pow2_pos' lgo Hl). assert (0 <= m * 2 ^ lgo) by nia.
+    assert (Hn : 0 < n) by lia.
+    destruct (Z_lt_le_dec (j - m * 2 ^ lgo) 0).
+    - rewrite (p_rot_neg n Hn) by lia. unfold p_const.
+      destruct (Z.eqb_spec (j - m * 2 ^ lgo + n) 0); [lia|]. destruct (Z.eqb_spec j (m * 2 ^ lgo)); lia.
+    - rewrite (p_rot_lo n) by lia. unfold p_const.
+      destruct (Z.eqb_spec (j - m * 2 ^ lgo) 0); destruct (Z.eqb_spec j (m * 2 ^ lgo)); lia.
+  Qed.
+
+  Lemma row_ok_expo lgo m i : 2 <= base2k -> 0 <= lgo -> (D - 1) * 2 ^ lgo < n -> 0 <= m < D -> 0 <= i < dnum ->
+    exists q, cb_row logn base2k dnum bb true ld lgo m i = Some q /\
+              forall j, 0 <= j < n -> row_decoded base2k dnum bb i q j = cand logn true lgo m j.
+  Proof.
+    intros Hb2 Hl Hpk Hm Hi. pose proof S_pos. pose proof A_pos. pose proof D_pos. pose proof n_DAS as En.
+    assert (HAS : 0 < A * S) by nia. pose proof (pow2_pos' lgo Hl) as HL.
+    assert (Hn : 0 < n) by (rewrite En; nia).
+    assert (Hmb : m * 2 ^ lgo < n) by (assert (m * 2 ^ lgo <= (D - 1) * 2 ^ lgo) by (apply Z.mul_le_mono_nonneg_r; lia); lia).
+    pose proof sc_nonneg. set (s := base2k * (dnum - 1 - i) + lut_sc base2k dnum bb). assert (Hs : 0 <= s) by (unfold s; nia).
+    pose proof (pow2_pos' s Hs) as Hps.
+    set (Mo := 2 ^ (base2k * (i + 1))).
+    assert (HMo : 4 <= Mo /\ Mo = 2 * (Mo / 2)).
+    { unfold Mo. replace (base2k * (i + 1)) with (2 + (base2k * (i + 1) - 2)) by lia. rewrite Z.pow_add_r by nia.
+      pose proof (pow2_pos' (base2k * (i + 1) - 2) ltac:(nia)). change (2 ^ 2) with 4. split; [lia|].
+      replace (4 * 2 ^ (base2k * (i + 1) - 2)) with ((2 * 2 ^ (base2k * (i + 1) - 2)) * 2) by ring. rewrite Z.div_mul by lia. ring. }
+    (* decoding of the two values a row can take *)
+    assert (Dec : forall (q : poly) j v, (v = 0 \/ v = 1) -> q j = v * 2 ^ s -> row_decoded base2k dnum bb i q j = v).
+    { intros q j v Hv Eq. unfold row_decoded. cbv zeta. fold s Mo. rewrite Eq.
+      assert (Eh : (v * 2 ^ s + (if s =? 0 then 0 else 2 ^ (s - 1))) / 2 ^ s = v).
+      { destruct (Z.eqb_spec s 0) as [E0|E0].
+        - rewrite E0. change (2 ^ 0) with 1. rewrite Z.add_0_r, Z.mul_1_r. apply Z.div_1_r.
+        - pose proof (pow2_pos' (s - 1) ltac:(lia)).
+          assert (2 ^ s = 2 * 2 ^ (s - 1)) by (replace s with (1 + (s - 1)) at 1 by lia; rewrite Z.pow_add_r by lia; reflexivity).
+          destruct (div_mod_small (v * 2 ^ s + 2 ^ (s - 1)) (2 ^ s) v (2 ^ (s - 1)) ltac:(lia) ltac:(lia) ltac:(ring)) as [-> _]. reflexivity. }
+      rewrite Eh. rewrite Z.mod_small by lia. destruct (Z.leb_spec (Mo / 2) v); lia. }
+    (* the traced accumulator *)
+    set (a0 := p_rot n (- (i * cb_gap logn dnum ld)) (br_acc logn base2k dnum bb true ld m)).
+    assert (Ktr : forall j, 0 <= j < n ->
+              p_trace n (logn - log_gap_in logn dnum ld) a0 j = if j =? m * (A * S) then 2 ^ s else 0).
+    { intros j Hj. unfold p_trace, p_keep. rewrite log_gap_in_eq.
+      replace (logn - G) with ld by (unfold G, e; lia). fold n D. rewrite En.
+      replace (D * A * S) with (A * S * D) by ring. rewrite Z.div_mul by lia.
+      destruct (Z.eqb_spec (j mod (A * S)) 0) as [E0|E0].
+      - assert (Ej : j = (j / (A * S)) * (A * S)) by (pose proof (Z.div_mod j (A * S) ltac:(lia)); lia).
+        assert (Ht : 0 <= j / (A * S) < D).
+        { split; [apply Z.div_pos; lia|]. apply Z.div_lt_upper_bound; [lia|]. rewrite En in Hj. lia. }
+        rewrite Ej at 1. unfold a0. rewrite row_coeff_expo by auto. fold s.
+        destruct (Z.eqb_spec (j / (A * S)) m) as [E1|E1]; destruct (Z.eqb_spec j (m * (A * S))) as [E2|E2]; try reflexivity.
+        + rewrite E1 in Ej. lia.
+        + exfalso. apply E1. rewrite E2. apply Z.div_mul. lia.
+      - destruct (Z.eqb_spec j (m * (A * S))) as [E2|]; [|reflexivity]. exfalso. apply E0. rewrite E2. apply Z.mod_mul. lia. }
+    unfold cb_row. rewrite asserts_ok_expo. cbv zeta. fold a0. unfold post_process. rewrite log_gap_in_eq. fold n.
+    destruct (Z.eqb_spec G lgo) as [EG|EG]; cbn [negb].
+    - (* trace only: log_gap_out = log_gap_in *)
+      eexists; split; [reflexivity|]. intros j Hj. rewrite cand_expo by (auto; lia).
+      rewrite <- log_gap_in_eq at 1. rewrite <- EG, <- AS_pow.
+      destruct (Z.eqb_spec j (m * (A * S))) as [E|E].
+      + apply Dec; [now right|]. rewrite Ktr by auto. rewrite E, Z.eqb_refl. ring.
+      + apply Dec; [now left|]. rewrite Ktr by auto. destruct (Z.eqb_spec j (m * (A * S))); [contradiction|ring].
+    - (* rotate and pack *)
+      fold D. destruct (Z.ltb_spec ((D - 1) * 2 ^ lgo) n); [|lia].
+      eexists; split; [reflexivity|]. intros j Hj. rewrite cand_expo by (auto; lia). cbv beta.
+      assert (Hrd : forall t, 0 <= t < D ->
+                p_rot n (- (t * 2 ^ G)) (p_trace n (logn - G) a0) 0 = if t =? m then 2 ^ s else 0).
+      { intros t Ht. rewrite <- AS_pow.
+        assert (0 <= t * (A * S) /\ t * (A * S) < n).
+        { assert (t * (A * S) <= (D - 1) * (A * S)) by (apply Z.mul_le_mono_nonneg_r; lia).
+          assert (0 <= t * (A * S)) by (apply Z.mul_nonneg_nonneg; lia). rewrite En.
+          replace (D * A * S) with ((D - 1) * (A * S) + A * S) by ring. lia. }
+        rewrite (p_rot_lo n) by lia. replace (0 - - (t * (A * S))) with (t * (A * S)) by ring.
+        rewrite <- log_gap_in_eq. rewrite Ktr by lia.
+        destruct (Z.eqb_spec (t * (A * S)) (m * (A * S))); destruct (Z.eqb_spec t m); try reflexivity; try nia. }
+      destruct (Z.eqb_spec (j mod 2 ^ lgo) 0) as [E0|E0].
+      + assert (Ej : j = (j / 2 ^ lgo) * 2 ^ lgo) by (pose proof (Z.div_mod j (2 ^ lgo) ltac:(lia)); lia).
+        assert (0 <= j / 2 ^ lgo) by (apply Z.div_pos; lia).
+        destruct (Z.leb_spec 0 (j / 2 ^ lgo)); [|lia]. destruct (Z.ltb_spec (j / 2 ^ lgo) D); cbn [andb].
+        * destruct (Z.eqb_spec j (m * 2 ^ lgo)) as [E|E].
+          -- apply Dec; [now right|]. cbv beta. rewrite E0. cbn [Z.eqb]. rewrite E.
+             rewrite Z.div_mul by lia. destruct (Z.leb_spec 0 m); [|lia]. destruct (Z.ltb_spec m D); [|lia]. cbn [andb].
+             rewrite Hrd by lia. rewrite Z.eqb_refl. ring.
+          -- apply Dec; [now left|]. cbv beta. rewrite E0. cbn [Z.eqb].
+             destruct (Z.leb_spec 0 (j / 2 ^ lgo)); [|lia]. destruct (Z.ltb_spec (j / 2 ^ lgo) D); [|lia]. cbn [andb].
+             rewrite Hrd by lia. destruct (Z.eqb_spec (j / 2 ^ lgo) m) as [E1|]; [|ring]. exfalso. apply E. rewrite <- E1. exact Ej.
+        * destruct (Z.eqb_spec j (m * 2 ^ lgo)) as [E|E].
+          -- exfalso. rewrite E, Z.div_mul in * by lia. lia.
+          -- apply Dec; [now left|]. cbv beta. rewrite E0. cbn [Z.eqb].
+             destruct (Z.leb_spec 0 (j / 2 ^ lgo)); destruct (Z.ltb_spec (j / 2 ^ lgo) D); cbn [andb]; try lia; ring.
+      + destruct (Z.eqb_spec j (m * 2 ^ lgo)) as [E|E].
+        * exfalso. apply E0. rewrite E. apply Z.mod_mul. lia.
+        * apply Dec; [now left|]. cbv beta. destruct (Z.eqb_spec (j mod 2 ^ lgo) 0); [contradiction|ring].
+  Qed.
+
+  Lemma rows_ok_expo lgo m : 2 <= base2k -> 0 <= lgo -> (D - 1) * 2 ^ lgo < n -> 0 <= m < D ->
+    cbt_rows_ok logn base2k dnum bb true ld lgo m = true.
+  Proof.
+    intros Hb2 Hl Hpk Hm. unfold cbt_rows_ok. apply forallb_forall. intros i Hi. apply in_zseq in Hi. rewrite Z2Nat.id in Hi by lia.
+    destruct (row_ok_expo lgo m i Hb2 Hl Hpk Hm ltac:(lia)) as (q & -> & Hq).
+    unfold poly_eqb. apply forallb_forall. intros j Hj. apply in_zseq in Hj.
+    assert (0 < n) by (apply pow2_pos'; lia). fold n in Hj. rewrite Z2Nat.id in Hj by lia.
+    apply Z.eqb_eq. apply Hq. lia.
+  Qed.
 End ConstGen.
 
-(* constant mode, all parameter sets *)
-Theorem cbt_rows_ok_constant_general : forall logn base2k dnum ld m,
-  1 <= dnum -> 0 <= ld -> ld + 1 <= base2k ->
+
+Lemma asserts_bound base2k dnum bb expo ld : 1 <= dnum ->
+  cb_asserts base2k dnum bb expo ld = true ->
+  base2k * (dnum - 1) + lut_sc base2k dnum bb + (if expo then 0 else ld) <= 62.
+Proof. intros Hd H. unfold cb_asserts in H. rewrite Z.max_r in H by lia. apply Z.ltb_lt in H. lia. Qed.
+
+(* both modes, all parameter sets the code accepts *)
+Theorem cbt_rows_ok_general : forall logn base2k dnum bb expo ld lgo m,
+  1 <= dnum -> 0 <= ld -> ld + 1 <= base2k -> 2 <= base2k -> 1 <= bb ->
+  cb_asserts base2k dnum bb expo ld = true ->
+  2 * (2 ^ ld * next_pow2 dnum) <= 2 ^ logn -> 0 <= logn ->
+  0 <= lgo -> (2 ^ ld - 1) * 2 ^ lgo < 2 ^ logn ->
+  0 <= m < 2 ^ ld ->
+  cbt_rows_ok logn base2k dnum bb expo ld lgo m = true.
+Proof.
+  intros logn base2k dnum bb expo ld lgo m Hd Hld Hldb Hb2 Hbb Hass Hroom Hlogn Hlgo Hpk Hm.
+  pose proof (asserts_bound base2k dnum bb expo ld Hd Hass) as Hov.
+  destruct (next_pow2_spec dnum Hd) as (a & Ha & Ea & Hda).
+  assert (Hr : ld + a + 1 <= logn).
+  { rewrite Ea in Hroom. rewrite <- Z.pow_add_r, <- Z.pow_succ_r in Hroom by lia. apply Z.pow_le_mono_r_iff in Hroom; lia. }
+  destruct expo.
+  - apply (rows_ok_expo logn base2k dnum bb ld a); auto; try lia.
+  - apply (rows_ok_const logn base2k dnum bb ld a); auto; try lia.
+Qed.
+
+(* constant mode (the mode prepare uses) *)
+Theorem cbt_rows_ok_constant_general : forall logn base2k dnum bb ld m,
+  1 <= dnum -> 0 <= ld -> ld + 1 <= base2k -> 1 <= bb ->
+  cb_asserts base2k dnum bb false ld = true ->
   2 * (2 ^ ld * next_pow2 dnum) <= 2 ^ logn -> 0 <= logn ->
   0 <= m < 2 ^ ld ->
-  cbt_rows_ok logn base2k dnum false ld 0 m = true.
+  cbt_rows_ok logn base2k dnum bb false ld 0 m = true.
 Proof.
-  intros logn base2k dnum ld m Hd Hld Hldb Hroom Hlogn Hm.
+  intros logn base2k dnum bb ld m Hd Hld Hldb Hbb Hass Hroom Hlogn Hm.
+  pose proof (asserts_bound base2k dnum bb false ld Hd Hass) as Hov.
   destruct (next_pow2_spec dnum Hd) as (a & Ha & Ea & Hda).
-  apply (rows_ok_const logn base2k dnum ld a); auto; try lia.
-  rewrite Ea in Hroom. rewrite <- Z.pow_add_r, <- Z.pow_succ_r in Hroom by lia.
-  apply Z.pow_le_mono_r_iff in Hroom; lia.
+  assert (Hr : ld + a + 1 <= logn).
+  { rewrite Ea in Hroom. rewrite <- Z.pow_add_r, <- Z.pow_succ_r in Hroom by lia. apply Z.pow_le_mono_r_iff in Hroom; lia. }
+  apply (rows_ok_const logn base2k dnum bb ld a); auto; try lia.
 Qed.
